@@ -39,6 +39,31 @@ var solvers = []solverSpec{
 	}},
 }
 
+// smtQF: the query with every quantified assumption dropped. Fewer assumptions only make the
+// goal harder to prove, so `unsat` here is a valid discharge; it keeps quantifier
+// instantiation from drowning goals that do not need it.
+func (o *Obligation) smtQF() string {
+	var sb strings.Builder
+	sb.WriteString("(set-logic ALL)\n")
+	keep := func(l string) bool {
+		return !strings.HasPrefix(l, "(assert") || !(strings.Contains(l, "(forall ") || strings.Contains(l, "(exists "))
+	}
+	for _, l := range o.vc.enc.header {
+		if keep(l) {
+			sb.WriteString(l)
+			sb.WriteByte('\n')
+		}
+	}
+	for _, l := range o.vc.stream[:o.Prefix] {
+		if keep(l) {
+			sb.WriteString(l)
+			sb.WriteByte('\n')
+		}
+	}
+	sb.WriteString("(assert (not " + o.Goal + "))\n(check-sat)\n")
+	return sb.String()
+}
+
 func (o *Obligation) smt(withModel bool) string {
 	var sb strings.Builder
 	if o.Class == "frame-scan" {
@@ -107,11 +132,31 @@ func solve(o *Obligation, dir string, budgetMs int, portfolioAll bool) *SolveRes
 	defer os.Remove(file)
 	res := &SolveResult{SMTBytes: len(text)}
 	ctx := context.Background()
+	if o.Expect == "unsat" && !portfolioAll && (strings.Contains(text, "(forall ") || strings.Contains(text, "(exists ")) {
+		qf := o.smtQF()
+		qfFile := file + ".qf.smt2"
+		if err := os.WriteFile(qfFile, []byte(qf), 0o644); err == nil {
+			st, out, ms := runSolver(ctx, solvers[0], qfFile, 1500)
+			os.Remove(qfFile)
+			res.Tried = append(res.Tried, fmt.Sprintf("%s(quantifier-free prefix):%s:%dms", solvers[0].name, st, ms))
+			if st == "unsat" {
+				res.Status, res.Solver, res.Ms, res.Output = st, solvers[0].name+" (quantified assumptions dropped)", ms, out
+				return res
+			}
+		}
+	}
 	firstMs := budgetMs
 	if firstMs > 3000 {
 		firstMs = 3000
 	}
 	definitive := func(s string) bool { return s == "sat" || s == "unsat" }
+	if o.Class == "smoke" {
+		// vacuity probes get one short attempt: only a definite `unsat` matters
+		st, out, ms := runSolver(ctx, solvers[0], file, 1200)
+		res.Tried = append(res.Tried, fmt.Sprintf("%s:%s:%dms", solvers[0].name, st, ms))
+		res.Status, res.Solver, res.Ms, res.Output = st, solvers[0].name, ms, out
+		return res
+	}
 	if !portfolioAll {
 		st, out, ms := runSolver(ctx, solvers[0], file, firstMs)
 		res.Tried = append(res.Tried, fmt.Sprintf("%s:%s:%dms", solvers[0].name, st, ms))
